@@ -171,6 +171,7 @@ func NewFollowerController(config Config, namespace string, shardId int64, wf wa
 		fc.applyAllCommittedEntries,
 	)
 
+	verifEmit(fc, "FCreated", "term", fc.term, "status", fc.status.String(), "lastapp", fc.lastAppendedOffset, "commit", commitOffset)
 	fc.log.Info(
 		"Created follower",
 		slog.Int64("head-offset", fc.lastAppendedOffset),
@@ -270,6 +271,7 @@ func (fc *followerController) NewTerm(req *proto.NewTermRequest) (*proto.NewTerm
 			slog.Int64("follower-term", fc.term),
 			slog.Int64("new-term", req.Term),
 		)
+		verifEmit(fc, "FNewTerm", "req", req.Term, "ok", false, "term", fc.term)
 		return nil, constant.ErrInvalidTerm
 	}
 
@@ -308,6 +310,7 @@ func (fc *followerController) NewTerm(req *proto.NewTermRequest) (*proto.NewTerm
 		return nil, err
 	}
 
+	verifEmit(fc, "FNewTerm", "req", req.Term, "ok", true, "term", fc.term, "ht", lastEntryId.Term, "ho", lastEntryId.Offset, "lastapp", fc.lastAppendedOffset)
 	fc.log.Info(
 		"Follower successfully initialized in new term",
 		slog.Any("last-entry", lastEntryId),
@@ -324,10 +327,12 @@ func (fc *followerController) Truncate(req *proto.TruncateRequest) (*proto.Trunc
 	}
 
 	if fc.status != proto.ServingStatus_FENCED {
+		verifEmit(fc, "FTruncate", "req", req.Term, "ok", false, "term", fc.term, "status", fc.status.String())
 		return nil, constant.ErrInvalidStatus
 	}
 
 	if req.Term != fc.term {
+		verifEmit(fc, "FTruncate", "req", req.Term, "ok", false, "term", fc.term, "status", fc.status.String())
 		return nil, constant.ErrInvalidTerm
 	}
 
@@ -338,6 +343,7 @@ func (fc *followerController) Truncate(req *proto.TruncateRequest) (*proto.Trunc
 			req.HeadEntryId.Offset, fc.wal.LastOffset())
 	}
 	fc.lastAppendedOffset = headOffset
+	verifEmit(fc, "FTruncate", "req", req.Term, "ok", true, "term", fc.term, "status", fc.status.String(), "to", req.HeadEntryId.Offset, "lastapp", headOffset)
 
 	return &proto.TruncateResponse{
 		HeadEntryId: &proto.EntryId{
@@ -407,6 +413,7 @@ func (fc *followerController) append(req *proto.Append, stream proto.OxiaLogRepl
 	defer fc.Unlock()
 
 	if req.Term != fc.term {
+		verifEmit(fc, "FAppend", "mterm", req.Term, "off", req.Entry.Offset, "out", "badterm", "term", fc.term, "lastapp", fc.lastAppendedOffset)
 		return constant.ErrInvalidTerm
 	}
 
@@ -430,6 +437,7 @@ func (fc *followerController) append(req *proto.Append, stream proto.OxiaLogRepl
 			slog.Int64("commit-offset", req.CommitOffset),
 			slog.Int64("offset", req.Entry.Offset),
 		)
+		verifEmit(fc, "FAppend", "mterm", req.Term, "off", req.Entry.Offset, "out", "dup", "term", fc.term, "lastapp", fc.lastAppendedOffset, "synced", fc.wal.LastOffset())
 		if err := stream.Send(&proto.Ack{Offset: req.Entry.Offset}); err != nil {
 			fc.closeStreamNoMutex(err)
 		}
@@ -439,10 +447,12 @@ func (fc *followerController) append(req *proto.Append, stream proto.OxiaLogRepl
 	// Append the entry asynchronously. We'll sync it in a group from the "sync" routine,
 	// where the ack is then sent back
 	if err := fc.wal.AppendAsync(req.GetEntry()); err != nil {
+		verifEmit(fc, "FAppend", "mterm", req.Term, "off", req.Entry.Offset, "out", "error", "term", fc.term, "lastapp", fc.lastAppendedOffset)
 		return err
 	}
 
 	fc.advertisedCommitOffset.Store(req.CommitOffset)
+	verifEmit(fc, "FAppend", "mterm", req.Term, "off", req.Entry.Offset, "out", "appended", "term", fc.term, "lastapp", fc.lastAppendedOffset, "adv", req.CommitOffset)
 	fc.lastAppendedOffset = req.Entry.Offset
 
 	// Trigger the sync
@@ -470,6 +480,7 @@ func (fc *followerController) handleReplicateSync(stream proto.OxiaLogReplicatio
 		// Ack all the entries that were synced in the last round
 		newHeadOffset := fc.wal.LastOffset()
 		for offset := oldHeadOffset + 1; offset <= newHeadOffset; offset++ {
+			verifEmit(fc, "FAck", "off", offset, "synced", newHeadOffset)
 			if err := stream.Send(&proto.Ack{Offset: offset}); err != nil {
 				fc.closeStream(err)
 				return
@@ -551,6 +562,7 @@ func (fc *followerController) processCommittedEntriesLoop(reader wal.Reader, max
 			return err
 		}
 
+		verifEmit(fc, "FApply", "off", entry.Offset, "prev", fc.commitOffset.Load(), "adv", maxInclusive)
 		fc.commitOffset.Store(entry.Offset)
 	}
 
@@ -721,6 +733,7 @@ func (fc *followerController) handleSnapshot(stream proto.OxiaLogReplication_Sen
 	fc.db = newDb
 	fc.commitOffset.Store(commitOffset)
 	fc.lastAppendedOffset = commitOffset
+	verifEmit(fc, "FSnapshot", "commit", commitOffset, "term", fc.term)
 	fc.closeStreamNoMutex(nil)
 
 	fc.log.Info(
